@@ -39,6 +39,9 @@ func worker(id int, in <-chan int, out chan<- string, done *int32) {
 	atomic.AddInt32(done, 1)
 }
 
+// a channel made while the package initialises (before any simulated run exists)
+var pkgCh = make(chan int, 1)
+
 // firstOf ends in a select whose clauses all return: the select is a terminating statement and the rewritten
 // form has to stay one ("missing return" otherwise).
 func firstOf(a <-chan int, stop <-chan struct{}) int {
@@ -249,5 +252,9 @@ T:
 	}
 	sort.Strings(names)
 	say(fmt.Sprint("ptrmap:", sum, names))
+
+	// 10. the package-level channel
+	go func() { pkgCh <- 9 }()
+	say(fmt.Sprint("pkgch:", <-pkgCh))
 	return strings.Join(log, ";")
 }
